@@ -4,6 +4,7 @@ states, for any embedding of masks that places the kept qubits at their new posi
 the removed qubits to their sector values.
 -/
 import OFV.Proofs.C16Loop
+import OFV.Proofs.C16
 
 namespace OFV
 namespace C16P
@@ -13,11 +14,11 @@ local notation "Op" => Model.Op
 local notation "Term" => Model.Term
 
 /-- what an embedding `E` of the small register into the full one has to satisfy -/
-structure Emb (qubits sectors : List Nat) (E : Nat → Nat) : Prop where
-  kept_bit : ∀ s q, q ∉ qubits → (E s).testBit q = s.testBit (shiftDown qubits q)
-  kept_flip : ∀ s q, q ∉ qubits → E (s ^^^ (1 <<< shiftDown qubits q)) = E s ^^^ (1 <<< q)
+structure Emb (n : Nat) (qubits sectors : List Nat) (E : Nat → Nat) : Prop where
+  kept_bit : ∀ s q, q < n → q ∉ qubits → (E s).testBit q = s.testBit (shiftDown qubits q)
+  kept_flip : ∀ s q, q < n → q ∉ qubits → E (s ^^^ (1 <<< shiftDown qubits q)) = E s ^^^ (1 <<< q)
   removed_bit : ∀ s q, q ∈ qubits → (E s).testBit q = decide (sectors[indexOf qubits q]?.getD 0 = 1)
-  inj : Function.Injective E
+  inj : ∀ s t, s < 2 ^ (n - qubits.length) → t < 2 ^ (n - qubits.length) → E s = E t → s = t
 
 def newTerm (qubits : List Nat) (τ : Term) : Term :=
   (τ.filter fun t => !qubits.contains t.1).map fun t => (shiftDown qubits t.1, t.2)
@@ -29,9 +30,9 @@ def Pauli123 (τ : Term) : Prop := ∀ f ∈ τ, f.2 = 1 ∨ f.2 = 2 ∨ f.2 = 3
 
 /-- a term without `X` / `Y` on the removed qubits acts on an embedded state like the projected
 term on the small state, times `(-1)^(number of Z on sector-1 qubits)` -/
-theorem actPTerm_embed (qubits sectors : List Nat) (E : Nat → Nat) (hE : Emb qubits sectors E)
+theorem actPTerm_embed (n : Nat) (qubits sectors : List Nat) (E : Nat → Nat) (hE : Emb n qubits sectors E)
     (hsec : ∀ q, sectors[indexOf qubits q]?.getD 0 = 0 ∨ sectors[indexOf qubits q]?.getD 0 = 1)
-    (τ : Term) (hp : Pauli123 τ) (hz : ∀ f ∈ τ, f.1 ∈ qubits → f.2 = 3) (s : Nat) :
+    (τ : Term) (hp : Pauli123 τ) (hz : ∀ f ∈ τ, f.1 ∈ qubits → f.2 = 3) (hn : ∀ f ∈ τ, f.1 < n) (s : Nat) :
     actPTerm τ (E s) = (((actPTerm (newTerm qubits τ) s).1 + 2 * expo qubits sectors τ) % 4,
                          E (actPTerm (newTerm qubits τ) s).2) := by
   induction τ with
@@ -40,7 +41,9 @@ theorem actPTerm_embed (qubits sectors : List Nat) (E : Nat → Nat) (hE : Emb q
     obtain ⟨q, p⟩ := f
     have hpr : Pauli123 r := fun g hg => hp g (List.mem_cons_of_mem _ hg)
     have hzr : ∀ g ∈ r, g.1 ∈ qubits → g.2 = 3 := fun g hg => hz g (List.mem_cons_of_mem _ hg)
-    have ihr := ih hpr hzr
+    have hnr : ∀ g ∈ r, g.1 < n := fun g hg => hn g (List.mem_cons_of_mem _ hg)
+    have hqn : q < n := hn (q, p) (by simp)
+    have ihr := ih hpr hzr hnr
     have hcons : actPTerm ((q, p) :: r) (E s) = stepP (q, p) (actPTerm r (E s)) := rfl
     rw [hcons, ihr]
     by_cases hq : q ∈ qubits
@@ -64,8 +67,8 @@ theorem actPTerm_embed (qubits sectors : List Nat) (E : Nat → Nat) (hE : Emb q
       have hcons2 : actPTerm ((shiftDown qubits q, p) :: newTerm qubits r) s
           = stepP (shiftDown qubits q, p) (actPTerm (newTerm qubits r) s) := rfl
       rw [hcons2]
-      have hb := hE.kept_bit (actPTerm (newTerm qubits r) s).2 q hq
-      have hf := hE.kept_flip (actPTerm (newTerm qubits r) s).2 q hq
+      have hb := hE.kept_bit (actPTerm (newTerm qubits r) s).2 q hqn hq
+      have hf := hE.kept_flip (actPTerm (newTerm qubits r) s).2 q hqn hq
       rcases hp (q, p) (by simp) with h | h | h <;> simp only at h <;> subst h
       · simp only [stepP, actP, hf, Prod.mk.injEq, and_true]; omega
       · simp only [stepP, actP, hb, hf, Prod.mk.injEq, and_true]; split <;> omega
@@ -116,7 +119,7 @@ theorem testBit_actPTerm (τ : Term) (hd : τ.Pairwise (fun a b => a.1 ≠ b.1))
         simp [ha, ih']
 
 /-- a term with `X` / `Y` on a removed qubit maps an embedded state outside the embedded sector -/
-theorem actPTerm_leaves_sector (qubits sectors : List Nat) (E : Nat → Nat) (hE : Emb qubits sectors E)
+theorem actPTerm_leaves_sector (n : Nat) (qubits sectors : List Nat) (E : Nat → Nat) (hE : Emb n qubits sectors E)
     (τ : Term) (hd : τ.Pairwise (fun a b => a.1 ≠ b.1))
     (hxy : τ.any (fun t => qubits.contains t.1 && (t.2 == 1 || t.2 == 2)) = true) (s t : Nat) :
     (actPTerm τ (E s)).2 ≠ E t := by
@@ -144,27 +147,54 @@ theorem foldl_add_eq_sum (l : List Nat) (a : Nat) : l.foldl (· + ·) a = a + l.
   | nil => simp
   | cons x r ih => simp only [List.foldl_cons, List.sum_cons, ih]; omega
 
+theorem actPTerm_state_lt (m : Nat) : ∀ (τ : Term) (s : Nat), s < 2 ^ m → (∀ f ∈ τ, f.1 < m) →
+    (actPTerm τ s).2 < 2 ^ m := by
+  intro τ
+  induction τ with
+  | nil => intro s hs _; simpa [actPTerm] using hs
+  | cons f r ih =>
+    intro s hs hf
+    have hr := ih s hs (fun g hg => hf g (List.mem_cons_of_mem _ hg))
+    have hj : f.1 < m := hf f (by simp)
+    have hcons : actPTerm (f :: r) s = stepP f (actPTerm r s) := rfl
+    rw [hcons]
+    have h2 : 1 <<< f.1 < 2 ^ m := by rw [Nat.one_shiftLeft]; exact Nat.pow_lt_pow_right (by omega) hj
+    simp only [stepP]
+    unfold actP
+    split <;> first | exact hr | exact Nat.xor_lt_two_pow hr h2
+
+theorem newTerm_lt (n : Nat) (qubits : List Nat) (hq : qubits.Nodup) (hqn : ∀ q ∈ qubits, q < n) (τ : Term)
+    (hn : ∀ f ∈ τ, f.1 < n) : ∀ f ∈ newTerm qubits τ, f.1 < n - qubits.length := by
+  intro f hf
+  simp only [newTerm, List.mem_map, List.mem_filter] at hf
+  obtain ⟨g, ⟨hg, hc⟩, rfl⟩ := hf
+  have hgq : g.1 ∉ qubits := by simpa using hc
+  exact shiftDown_lt qubits hq n hqn hgq (hn g hg)
+
 /-- matrix elements of a kept term -/
-theorem termCoef_kept (qubits sectors : List Nat) (E : Nat → Nat) (hE : Emb qubits sectors E)
+theorem termCoef_kept (n : Nat) (qubits sectors : List Nat) (E : Nat → Nat) (hE : Emb n qubits sectors E)
+    (hq : qubits.Nodup) (hqn : ∀ q ∈ qubits, q < n)
     (hsec : ∀ q, sectors[indexOf qubits q]?.getD 0 = 0 ∨ sectors[indexOf qubits q]?.getD 0 = 1)
-    (τ : Term) (hp : Pauli123 τ) (hz : ∀ f ∈ τ, f.1 ∈ qubits → f.2 = 3) (s t : Nat) :
+    (τ : Term) (hp : Pauli123 τ) (hz : ∀ f ∈ τ, f.1 ∈ qubits → f.2 = 3) (hn : ∀ f ∈ τ, f.1 < n) (s t : Nat)
+    (hs : s < 2 ^ (n - qubits.length)) (ht : t < 2 ^ (n - qubits.length)) :
     Sem.termCoef .qubit τ [E s] [E t]
       = GQ.sgn (expo qubits sectors τ) * Sem.termCoef .qubit (newTerm qubits τ) [s] [t] := by
-  rw [Sem.termCoef_qubit, Sem.termCoef_qubit, actPTerm_embed qubits sectors E hE hsec τ hp hz s]
+  rw [Sem.termCoef_qubit, Sem.termCoef_qubit, actPTerm_embed n qubits sectors E hE hsec τ hp hz hn s]
   simp only
   by_cases h : (actPTerm (newTerm qubits τ) s).2 = t
   · simp only [h, if_true]
     rw [← ipow_mod, sgn_eq_ipow2, ipow_mul, ← ipow_mod (2 * _ + _)]
     congr 1
     omega
-  · have : ¬ E (actPTerm (newTerm qubits τ) s).2 = E t := fun e => h (hE.inj e)
+  · have hlt := actPTerm_state_lt _ (newTerm qubits τ) s hs (newTerm_lt n qubits hq hqn τ hn)
+    have : ¬ E (actPTerm (newTerm qubits τ) s).2 = E t := fun e => h (hE.inj _ _ hlt ht e)
     simp [h, this]
 
-theorem termCoef_dropped (qubits sectors : List Nat) (E : Nat → Nat) (hE : Emb qubits sectors E)
+theorem termCoef_dropped (n : Nat) (qubits sectors : List Nat) (E : Nat → Nat) (hE : Emb n qubits sectors E)
     (τ : Term) (hd : τ.Pairwise (fun a b => a.1 ≠ b.1))
     (hxy : τ.any (fun t => qubits.contains t.1 && (t.2 == 1 || t.2 == 2)) = true) (s t : Nat) :
     Sem.termCoef .qubit τ [E s] [E t] = 0 := by
-  rw [Sem.termCoef_qubit, if_neg (actPTerm_leaves_sector qubits sectors E hE τ hd hxy s t)]
+  rw [Sem.termCoef_qubit, if_neg (actPTerm_leaves_sector n qubits sectors E hE τ hd hxy s t)]
 
 theorem den_mk_qubit (nt : Term) (c : GQ) (hv : Sem.ValidQ nt) (s t : Nat) :
     Sem.den .qubit (mk .qubit nt c) [s] [t] = c * Sem.termCoef .qubit nt [s] [t] := by
@@ -172,42 +202,60 @@ theorem den_mk_qubit (nt : Term) (c : GQ) (hv : Sem.ValidQ nt) (s t : Nat) :
   simp only [mk, simplify, Sem.den_cons, Sem.den_nil, add_zero]
   rw [mul_assoc, this]
 
-theorem den_iadd_zero (A B : Op) (s t : Nat) :
-    Sem.den .qubit (Model.iadd 0 A B) [s] [t] = Sem.den .qubit A [s] [t] + Sem.den .qubit B [s] [t] := by
-  rw [semDen_eq_modelDen, semDen_eq_modelDen, semDen_eq_modelDen, den_iadd 0 _ A B (exactAdd_zero B A)]
+theorem den_iadd_exact (tol : Rat) (A B : Op) (h : exactAddB tol A B = true) (s t : Nat) :
+    Sem.den .qubit (Model.iadd tol A B) [s] [t] = Sem.den .qubit A [s] [t] + Sem.den .qubit B [s] [t] := by
+  rw [semDen_eq_modelDen, semDen_eq_modelDen, semDen_eq_modelDen,
+    den_iadd tol _ A B (exactAddB_sound tol B A h)]
 
-/-- the loop of `project_onto_sector` (pruning-free arithmetic) -/
-theorem project_fold (qubits sectors : List Nat) (E : Nat → Nat) (hE : Emb qubits sectors E)
-    (hsec : ∀ q, sectors[indexOf qubits q]?.getD 0 = 0 ∨ sectors[indexOf qubits q]?.getD 0 = 1) (s t : Nat) :
-    ∀ (A acc : Op), (∀ e ∈ A, Pauli123 e.1 ∧ e.1.Pairwise (fun a b => a.1 ≠ b.1)) →
-    Sem.den .qubit (A.foldl (fun acc (x : Term × GQ) =>
-      if x.1.any (fun t => qubits.contains t.1 && (t.2 == 1 || t.2 == 2)) then acc
-      else Model.iadd 0 acc (mk .qubit (newTerm qubits x.1)
-        (x.2 * GQ.sgn (((x.1.filter fun t => qubits.contains t.1).map fun t =>
-          sectors[indexOf qubits t.1]?.getD 0).foldl (· + ·) 0)))) acc) [s] [t]
-      = Sem.den .qubit acc [s] [t] + Sem.den .qubit A [E s] [E t] := by
+theorem projPiece_none (qubits sectors : List Nat) (x : Term × GQ)
+    (h : x.1.any (fun t => qubits.contains t.1 && (t.2 == 1 || t.2 == 2)) = true) :
+    projPiece qubits sectors x = none := by
+  unfold projPiece
+  rw [if_pos h]
+
+theorem projPiece_some (qubits sectors : List Nat) (x : Term × GQ)
+    (h : x.1.any (fun t => qubits.contains t.1 && (t.2 == 1 || t.2 == 2)) = false) :
+    projPiece qubits sectors x
+      = some (mk .qubit (newTerm qubits x.1) (x.2 * GQ.sgn (expo qubits sectors x.1))) := by
+  simp only [projPiece, h, Bool.false_eq_true, if_false, newTerm, expo, foldl_add_eq_sum, Nat.zero_add]
+
+/-- the loop of `project_onto_sector` at the live tolerance, when its exactness flag comes out `true` -/
+theorem project_fold (tol : Rat) (n : Nat) (qubits sectors : List Nat) (E : Nat → Nat)
+    (hE : Emb n qubits sectors E) (hq : qubits.Nodup) (hqn : ∀ q ∈ qubits, q < n)
+    (hsec : ∀ q, sectors[indexOf qubits q]?.getD 0 = 0 ∨ sectors[indexOf qubits q]?.getD 0 = 1) (s t : Nat)
+    (hs : s < 2 ^ (n - qubits.length)) (ht : t < 2 ^ (n - qubits.length)) :
+    ∀ (A : Op) (acc : Op × Bool),
+    (∀ e ∈ A, Pauli123 e.1 ∧ e.1.Pairwise (fun a b => a.1 ≠ b.1) ∧ ∀ f ∈ e.1, f.1 < n) →
+    (A.foldl (projStep tol qubits sectors) acc).2 = true →
+    acc.2 = true ∧
+    Sem.den .qubit (A.foldl (projStep tol qubits sectors) acc).1 [s] [t]
+      = Sem.den .qubit acc.1 [s] [t] + Sem.den .qubit A [E s] [E t] := by
   intro A
   induction A with
-  | nil => intro acc _; simp [Sem.den_nil]
+  | nil => intro acc _ h; exact ⟨h, by simp [Sem.den_nil]⟩
   | cons e r ih =>
-    intro acc hA
+    intro acc hA hflag
     obtain ⟨τ, c⟩ := e
-    obtain ⟨hp, hd⟩ := hA (τ, c) (by simp)
-    simp only [List.foldl_cons]
-    rw [ih _ (fun e he => hA e (List.mem_cons_of_mem _ he)), Sem.den_cons]
+    obtain ⟨hp, hd, hnn⟩ := hA (τ, c) (by simp)
+    simp only [List.foldl_cons, projStep] at hflag ⊢
     by_cases hxy : τ.any (fun t => qubits.contains t.1 && (t.2 == 1 || t.2 == 2)) = true
-    · simp only [hxy, if_true]
-      rw [termCoef_dropped qubits sectors E hE τ hd hxy s t]; ring
+    · rw [projPiece_none qubits sectors (τ, c) hxy] at hflag ⊢
+      obtain ⟨h1, h2⟩ := ih acc (fun e he => hA e (List.mem_cons_of_mem _ he)) hflag
+      refine ⟨h1, ?_⟩
+      rw [h2, Sem.den_cons, termCoef_dropped n qubits sectors E hE τ hd hxy s t]; ring
     · have hxy' : τ.any (fun t => qubits.contains t.1 && (t.2 == 1 || t.2 == 2)) = false := by simpa using hxy
-      simp only [hxy', Bool.false_eq_true, if_false]
+      rw [projPiece_some qubits sectors (τ, c) hxy'] at hflag ⊢
+      obtain ⟨h1, h2⟩ := ih _ (fun e he => hA e (List.mem_cons_of_mem _ he)) hflag
+      simp only [Bool.and_eq_true] at h1
+      refine ⟨h1.1, ?_⟩
       have hz : ∀ f ∈ τ, f.1 ∈ qubits → f.2 = 3 := by
         intro f hf hq
         have := hp f hf
         rw [List.any_eq_false] at hxy'
-        have h2 := hxy' f hf
+        have h3 := hxy' f hf
         have hc : qubits.contains f.1 = true := by simpa using hq
-        rw [hc] at h2
-        simp at h2
+        rw [hc] at h3
+        simp at h3
         omega
       have hv : Sem.ValidQ (newTerm qubits τ) := by
         intro f hf
@@ -216,9 +264,8 @@ theorem project_fold (qubits sectors : List Nat) (E : Nat → Nat) (hE : Emb qub
         have := hp g hg
         show g.2 < 4
         omega
-      rw [den_iadd_zero, den_mk_qubit _ _ hv, termCoef_kept qubits sectors E hE hsec τ hp hz s t,
-        foldl_add_eq_sum, Nat.zero_add]
-      simp only [expo]
+      rw [h2, den_iadd_exact tol _ _ h1.2, den_mk_qubit _ _ hv, Sem.den_cons,
+        termCoef_kept n qubits sectors E hE hq hqn hsec τ hp hz hnn s t hs ht]
       ring
 
 /-! ### a concrete embedding (non-vacuity): remove qubit 0, sector 1 -/
@@ -227,15 +274,15 @@ theorem shiftDown0 (q : Nat) (hq : q ≠ 0) : shiftDown [0] q = q - 1 := by
   have : 0 < q := by omega
   simp [shiftDown, this]
 
-theorem emb_example : Emb [0] [1] (fun s => 2 * s + 1) where
+theorem emb_example (n : Nat) : Emb n [0] [1] (fun s => 2 * s + 1) where
   kept_bit := by
-    intro s q hq
+    intro s q _ hq
     have hq0 : q ≠ 0 := by simpa using hq
     rw [shiftDown0 q hq0]
     obtain ⟨k, rfl⟩ : ∃ k, q = k + 1 := ⟨q - 1, by omega⟩
     simp [Nat.testBit_succ, Nat.add_div]
   kept_flip := by
-    intro s q hq
+    intro s q _ hq
     have hq0 : q ≠ 0 := by simpa using hq
     rw [shiftDown0 q hq0]
     obtain ⟨k, rfl⟩ : ∃ k, q = k + 1 := ⟨q - 1, by omega⟩
@@ -255,7 +302,7 @@ theorem emb_example : Emb [0] [1] (fun s => 2 * s + 1) where
     have : q = 0 := by simpa using hq
     subst this
     simp [indexOf, Nat.testBit_zero]
-  inj := by intro a b h; simp at h; omega
+  inj := by intro a b _ _ h; simp at h; omega
 
 end C16P
 end OFV
